@@ -1,0 +1,48 @@
+//go:build verif
+// +build verif
+
+package kubernetes
+
+// Machine-checked contracts for the Kubernetes shard manager (read by /verif/engine, see /verif/DESIGN.md).
+// This file contains comments only and is excluded from every normal build by the tag "verif".
+
+/*@
+// name of the volume claim of template tpl for ordinal i (the format the StatefulSet controller uses)
+pred pvcName(tplName, stsName, i) = sprintf("%s-%s-%d", 3, tplName, stsName, i)
+
+// witnesses for "only claims of removed ordinals are deleted": for every deleted name, the ordinal and template it was built from
+ghost global gWOrd seq[int]
+ghost global gWTpl seq[int]
+on call "k8s.io/client-go/kubernetes/typed/core/v1.PersistentVolumeClaimInterface.Delete"(ctx, name, opts) in shardManager.ChangeScale
+   do gWOrd = seqset(gWOrd, name, i)
+   do gWTpl = seqset(gWTpl, name, idx2)
+
+contract shardManager.ChangeScale
+  requires s != nil && s.sts != nil && s.cli != nil
+  ensures[C18] @no_change_when_count_equal (err == nil && gStsUpdates == old(gStsUpdates)) ==> gDeletedPVC == old(gDeletedPVC)
+  ensures[C18] @nothing_when_replicas_already_expected old(gReplicas) == expect ==> (gStsUpdates == old(gStsUpdates) && gDeletedPVC == old(gDeletedPVC) && gReplicas == old(gReplicas))
+  ensures[C18] @replicas_set_to_requested gStsUpdates != old(gStsUpdates) ==> (gStsUpdates == old(gStsUpdates) + 1 && gReplicas == expect)
+  ensures[C18] @no_delete_without_successful_update gStsUpdates == old(gStsUpdates) ==> gDeletedPVC == old(gDeletedPVC)
+  ensures[C18] @no_delete_unless_enabled !s.deletePVC ==> gDeletedPVC == old(gDeletedPVC)
+  ensures[C18] @only_removed_ordinals_deleted forall n in gDeletedPVC :: (n in old(gDeletedPVC)
+        || (expect <= gWOrd[n] && gWOrd[n] < old(gReplicas) && n == sprintf("%s-%s-%d", 3, gWTplName[n], gWSts[n], gWOrd[n])))
+  ensures[C18] @every_removed_ordinal_is_cleaned (defined(sts) && s.deletePVC && gStsUpdates != old(gStsUpdates)) ==>
+        (forall k in expect..old(gReplicas) :: forall j in 0..len(sts.Spec.VolumeClaimTemplates) :: sprintf("%s-%s-%d", 3, sts.Spec.VolumeClaimTemplates[j].Name, sts.Name, k) in gDeletedPVC)
+  modifies gReplicas, gStsUpdates, gDeletedPVC, gDeleteCalls, gWOrd, gWTpl, gWTplName, gWSts, k8s.io/api/apps/v1.StatefulSet.* at {}, elems(k8s.io/api/apps/v1.StatefulSetSpec.VolumeClaimTemplates) at {}
+  loop 1 invariant i < old(gReplicas) && gStsUpdates == old(gStsUpdates) + 1 && gReplicas == expect && s.deletePVC
+  loop 1 invariant[C18] @only_removed_ordinals_deleted forall n in gDeletedPVC :: (n in old(gDeletedPVC)
+        || (expect <= gWOrd[n] && gWOrd[n] < old(gReplicas) && n == sprintf("%s-%s-%d", 3, gWTplName[n], gWSts[n], gWOrd[n])))
+  loop 1 invariant[C18] @every_removed_ordinal_is_cleaned forall k in i + 1..old(gReplicas) :: forall j in 0..len(sts.Spec.VolumeClaimTemplates) :: sprintf("%s-%s-%d", 3, sts.Spec.VolumeClaimTemplates[j].Name, sts.Name, k) in gDeletedPVC
+  loop 2 invariant[C18] @every_removed_ordinal_is_cleaned forall k in i + 1..old(gReplicas) :: forall j in 0..len(sts.Spec.VolumeClaimTemplates) :: sprintf("%s-%s-%d", 3, sts.Spec.VolumeClaimTemplates[j].Name, sts.Name, k) in gDeletedPVC
+  loop 2 invariant[C18] @every_removed_ordinal_is_cleaned forall j in 0..idx2 :: sprintf("%s-%s-%d", 3, sts.Spec.VolumeClaimTemplates[j].Name, sts.Name, i) in gDeletedPVC
+  loop 2 invariant expect <= i && i < old(gReplicas) && gStsUpdates == old(gStsUpdates) + 1 && gReplicas == expect && s.deletePVC
+  loop 2 invariant[C18] @only_removed_ordinals_deleted forall n in gDeletedPVC :: (n in old(gDeletedPVC)
+        || (expect <= gWOrd[n] && gWOrd[n] < old(gReplicas) && n == sprintf("%s-%s-%d", 3, gWTplName[n], gWSts[n], gWOrd[n])))
+
+ghost global gWTplName seq[int]
+ghost global gWSts seq[int]
+on call "k8s.io/client-go/kubernetes/typed/core/v1.PersistentVolumeClaimInterface.Delete"(ctx, name, opts) in shardManager.ChangeScale
+   do gWTplName = seqset(gWTplName, name, pvc.Name)
+   do gWSts = seqset(gWSts, name, sts.Name)
+   assert[C18] @deleted_name_is_of_a_removed_ordinal name == sprintf("%s-%s-%d", 3, pvc.Name, sts.Name, i) && expect <= i && i < old(gReplicas)
+@*/
